@@ -322,3 +322,49 @@ def mode_frames(rng, n):
             parts.append("dr")
         out.append(" ; ".join(parts))
     return out
+
+
+def kept_references(rng, n):
+    """a cell modified through an element& / iterator obtained BEFORE the previous draw, with no other access to the canvas in
+    between (a spinner cell, a clock): the draw must look at the cells, not at whether the canvas 'was touched'"""
+    out = []
+    for _ in range(n):
+        w, h = rng.choice([(4, 3), (5, 2), (3, 3), (8, 2), (1, 1)])
+        x, y = rng.randrange(w), rng.randrange(h)
+        parts = ["S %d" % rng.choice([0, 16]), "tsz %d %d" % (w, h), "cv %d %d" % (w, h)]
+        for _ in range(rng.choice([0, 2, 5])):
+            cx, cy = rng.randrange(w), rng.randrange(h)
+            parts.append(px(cx, cy, tg.element(rng)))
+        parts.append("kr %d %d" % (x, y))
+        if rng.random() < 0.3:
+            parts.append(px(rng.randrange(w), rng.randrange(h), tg.element(rng)))
+        parts.append("dr")
+        for f in range(rng.choice([1, 2, 4])):
+            parts.append("%s %s" % (rng.choice(["sr", "si"]), tg.fmt_el(tg.element(rng))))
+            parts.append("dr")
+            if rng.random() < 0.2:
+                parts.append("dr")
+        out.append(" ; ".join(parts))
+    return out
+
+
+def large_canvas_replaced(rng, n):
+    """a written canvas of 1000+ cells is destroyed and a NEW canvas of that size (or a bit smaller) is constructed and drawn:
+    it starts blank, whatever storage it was given"""
+    out = []
+    for _ in range(n):
+        w, h = rng.choice([(40, 30), (80, 24), (64, 16), (33, 32)])
+        parts = ["S %d" % rng.choice([0, 16]), "tsz %d %d" % (w, h), "cv %d %d" % (w, h)]
+        for _ in range(rng.choice([3, 10, 40])):
+            parts.append(px(rng.randrange(w), rng.randrange(h), tg.element(rng)))
+        parts.append("dr")
+        w2, h2 = rng.choice([(w, h), (w, h), (w - 1, h), (w, h - 2)])
+        if (w2, h2) != (w, h):
+            parts.append("tsz %d %d" % (w2, h2))
+        parts.append(rng.choice(["cv %d %d", "nc %d %d"]) % (w2, h2))
+        if rng.random() < 0.5:
+            parts.append(px(rng.randrange(w2), rng.randrange(h2), tg.element(rng)))
+        parts.append("dr")
+        parts.append("dr")
+        out.append(" ; ".join(parts))
+    return out
